@@ -233,3 +233,62 @@ def adaptive_weights_ascend(S):
     S.forall("backward-negates-the-gradient", back, lambda q: zreal(back.val.at(q)) == -zreal(g.val.at(q)))
     fwd = S.call(S.getattr(GR, "forward"), None, g)
     S.forall("forward-is-the-identity", fwd, lambda q: zreal(fwd.val.at(q)) == zreal(g.val.at(q)))
+
+
+KINDS = ["single", "pinn", "mean", "deepritz", "periodic", "integro", "variational", "data", "hpm-at-data-points", "hpm-at-sampler", "hpcm"]
+
+
+@scenario("C07", [SOLVER + ".configure_optimizers"] + [COND + c + ".__init__" for c in ("SingleModuleCondition", "PINNCondition", "MeanCondition", "DeepRitzCondition", "PeriodicCondition", "IntegroPINNCondition", "DataCondition", "HPM_EquationLoss_at_DataPoints", "HPM_EquationLoss_at_Sampler", "HPCMCondition")] + ["torchphysics.problem.conditions.variational_condition.VariationalPINNCondition.__init__"], configs=KINDS, bounded="one condition of the named class per configuration (every exported condition class that owns a network)")
+def every_condition_class_hands_all_its_networks_and_parameters_to_the_optimizer(S):
+    """'every step updates all the networks that enter the loss': for every condition class, EVERY network handed to
+    the constructor (the state AND the correction network of HPCMCondition, ...) and the inverse-problem parameter are
+    among the tensors Solver.configure_optimizers gives to the optimizer (they are registered sub-modules /
+    parameters of the condition) -- otherwise they enter the loss but are silently never trained"""
+    I = S.I
+    x = S.new(RN, "x", 2)
+    mul = lambda a, b: I.binop(ast.Mult(), a, b)
+    n = S.int("n", 1)
+    smp = AbstractSampler(S, "smp", x, n)
+    model = AbstractModel(S, "net", x, S.new(RN, "u", 1))
+    D = S.new(PARAM, [S.real("D0")], S.new(RN, "D", 1))
+    res = RowFn("res", ["u", "x", "D"], 1, {"u": 1, "x": 2, "D": 1})
+    E, loader = rowwise_tensor_fn("E"), S.opaque("dataloader")
+    nets, k = [model], S.cfg
+    has_param = True
+    if k == "single":
+        cond = S.new(COND + "SingleModuleCondition", model.obj, smp.obj, res, E, parameter=D)
+    elif k in ("pinn", "mean", "deepritz"):
+        cond = S.new(COND + {"pinn": "PINNCondition", "mean": "MeanCondition", "deepritz": "DeepRitzCondition"}[k], model.obj, smp.obj, res, parameter=D)
+    elif k == "periodic":
+        lo, hi = S.real("lo"), S.real("hi")
+        S.assume(lo.t < hi.t)
+        interval = S.new("torchphysics.problem.domains.domain1D.interval.Interval", S.new(RN, "t", 1), lo, hi)
+        m2 = AbstractModel(S, "net", mul(S.new(RN, "x", 2), S.new(RN, "t", 1)), S.new(RN, "u", 1))
+        nets = [m2]
+        cond = S.new(COND + "PeriodicCondition", m2.obj, interval, RowFn("resp", ["u_left", "u_right"], 1, {"u_left": 1, "u_right": 1}), non_periodic_sampler=smp.obj, parameter=D)
+    elif k == "integro":
+        cond = S.new(COND + "IntegroPINNCondition", model.obj, smp.obj, res, AbstractSampler(S, "ismp", x, S.int("m", 1)).obj, parameter=D)
+    elif k == "variational":
+        cond = S.new("torchphysics.problem.conditions.variational_condition.VariationalPINNCondition", model.obj, res, smp.obj, S.opaque("test_function_set"), parameter=D)
+    elif k == "data":
+        cond, has_param = S.new(COND + "DataCondition", model.obj, loader, 2), False
+    elif k == "hpm-at-data-points":
+        cond = S.new(COND + "HPM_EquationLoss_at_DataPoints", model.obj, loader, 2, res, parameter=D)
+    elif k == "hpm-at-sampler":
+        cond = S.new(COND + "HPM_EquationLoss_at_Sampler", model.obj, smp.obj, res, parameter=D)
+    else:
+        corr = AbstractModel(S, "corr", S.new(RN, "u", 1), S.new(RN, "c", 1))
+        nets = [model, corr]
+        cond, has_param = S.new(COND + "HPCMCondition", model.obj, corr.obj, loader, RowFn("corrfn", ["u"], 1, {"u": 1})), False
+    opt_cls = TensorFn("optimizer_class", lambda I_, a, kw: __import__("tpv.interp", fromlist=["x"]).Opaque("optimizer"))
+    sol = S.new(SOLVER, [cond], (), S.new(OPT, opt_cls, S.real("lr")))
+    S.method(sol, "configure_optimizers")
+    S.ensure("optimizer-built-exactly-once", len(opt_cls.calls) == 1)
+    if len(opt_cls.calls) != 1:
+        return
+    handed = list(opt_cls.calls[0]["args"][0])
+    for j, m in enumerate(nets):
+        S.ensure(f"weights-of-network-{j + 1}-of-{len(nets)}-are-optimised", any(p is m.theta for p in handed))
+    if has_param:
+        S.ensure("inverse-problem-parameter-is-optimised", any(p is D.f["_t"] for p in handed))
+    S.ensure("nothing-but-learnable-tensors", all(isinstance(p, Tensor) and p.requires_grad for p in handed))
